@@ -67,6 +67,18 @@ def pairing(chk, F):
     # the decomposition loop walks the resolved units themselves, from the first (no skip feeding enumerate)
     enums = [(bb, t) for bb, t in fn.calls() if "callee" in t and t["callee"]["path"].endswith("Iterator::enumerate")]
     ok = len(enums) == 1 and "skip" not in ap_str(fn.apath(enums[0][1]["args"][0])) and "IntoIterator>::into_iter(" in ap_str(fn.apath(enums[0][1]["args"][0]))
+    if not enums:
+        # no index: the last unit taken off with split_last(), the loop over the rest, from the first (see peeled_last)
+        nf = F.find(CORE, "runtime::eval::to_list", inline=True, keep=TO_LIST_KEEP)
+        drs = [(b_, t_) for b_, t_ in nf.calls() if "callee" in t_ and t_["callee"]["path"].endswith("types::numeric::Numeric::div_rem")]
+        divs = [(b_, t_) for b_, t_ in nf.calls() if "callee" in t_ and t_["callee"]["path"].endswith("core::ops::arith::Div<&'b types::numeric::Numeric>>::div")]
+        if len(drs) == 1 and len(divs) == 1:
+            sp = peeled_last(nf, drs[0][1], divs[0][1])
+            if sp is not None:
+                src = ap_str(nf.apath(nf.blocks[sp]["term"]["args"][0]))
+                ok = "Iterator>::collect(" in src and "skip" not in src and "rev" not in src
+                enums = [(sp, nf.blocks[sp]["term"])]
+                fn = nf
     chk.decide(ok, "positional-pairing", fk, "loop-over-all-units", fn.where(enums[0][0]) if enums else fn.where(),
                "the decomposition loop enumerates the resolved units from the first", "the decomposition loop does not enumerate the resolved units themselves")
 
@@ -101,6 +113,49 @@ def positive_units(chk, F):
                  "to_list accepts a negative-valued list unit (`10 K -> delisle_absolute;K`): the parts do not share the value's sign")
 
 
+def peeled_last(fn, dt, xt):
+    """The same decomposition with the last unit taken out of the loop: `let (last, init) = units.split_last()..; for unit in init
+    { div_rem by unit.value } exact division by last.value`.  Returns the block of the split_last call when div_rem divides by the
+    elements of its second component (all of them, from the first) and the exact division by its first component, once, after the
+    loop; None otherwise."""
+    WRAP = ("Try>::branch", "Option::<T>::ok_or_else", "Option::<T>::ok_or", "Option::<T>::unwrap", "Option::<T>::expect", "Deref>::deref")
+
+    def split_site(ap):
+        """(block of the split_last call, tuple component taken) for an access path that goes through it"""
+        root, projs = ap
+        comp = [p for p in projs if str(p).isdigit()]
+        for _ in range(8):
+            if root[0] != "call" or not root[2]:
+                return None
+            if root[1].endswith("<impl [T]>::split_last"):
+                return root[3], comp
+            if not root[1].endswith(WRAP):
+                return None
+            inner = root[2][0]
+            comp = [p for p in inner[1] if str(p).isdigit()] + comp
+            root = inner[0]
+        return None
+    u1, u2 = fn.apath(dt["args"][1]), fn.apath(xt["args"][1])
+    if u1[1][-1:] != ("value",) or u2[1][-1:] != ("value",):
+        return None
+    # the exact division: <split_last payload>.0.value
+    s2 = split_site((u2[0], u2[1][:-1]))
+    # div_rem: next(iter(<split_last payload>.1)) as Some.0 .value, nothing skipped
+    r1 = u1[0]
+    if r1[0] != "call" or not r1[1].endswith(("Iterator>::next", "::next")) or not r1[2]:
+        return None
+    src = r1[2][0]
+    while src[0][0] == "call" and src[0][2] and src[0][1].endswith(("::iter", "into_iter", "IntoIterator>::into_iter")) and not src[1]:
+        src = src[0][2][0]
+    s1 = split_site(src)
+    if s1 is None or s2 is None or s1[0] != s2[0]:
+        return None
+    # payload steps contribute one "0" each (Continue.0 / Some.0): the tuple component is the last digit
+    if s1[1][-1:] != ["1"] or s2[1][-1:] != ["0"]:
+        return None
+    return s1[0]
+
+
 def threading(chk, F):
     fn = F.find(CORE, "runtime::eval::to_list", inline=True, keep=TO_LIST_KEEP)
     fk = "rink_core::runtime::eval::to_list"
@@ -118,7 +173,9 @@ def threading(chk, F):
                "div_rem and the final division both operate on the running value", "div_rem and the final division do not read the same running value")
     # unit operand is the loop item's .value in both
     u1, u2 = fn.apath(dt["args"][1]), fn.apath(xt["args"][1])
-    chk.decide(u1[1][-1:] == ("value",) and u2[1][-1:] == ("value",) and u1[1] == u2[1] and c03.val_key(u1)[0] == c03.val_key(u2)[0], "remainder-threading", fk, "divides-by-list-unit", fn.where(db),
+    same_item = u1[1][-1:] == ("value",) and u2[1][-1:] == ("value",) and u1[1] == u2[1] and c03.val_key(u1)[0] == c03.val_key(u2)[0]
+    # ... or the last unit has been taken off the list: div_rem by the elements of `init`, the exact division by `last`
+    chk.decide(same_item or peeled_last(fn, dt, xt) is not None, "remainder-threading", fk, "divides-by-list-unit", fn.where(db),
                "both divide by the current list unit's value", "the divisor is not the current list unit's value (%s / %s)" % (ap_str(u1)[-60:], ap_str(u2)[-60:]))
     # running value := remainder component of this very call; pushed := quotient component
     assigned = None
@@ -190,9 +247,18 @@ def threading(chk, F):
         return None
     res, matched = k2.cut_gate(fn, [xb], is_last)
     res2, _ = k2.cut_gate(fn, [db], lambda k, a, i: ({"false"} if is_last(k, a, i) == {"true"} else {"true"}) if is_last(k, a, i) else None)
-    chk.decide(bool(matched) and res[xb] and res2[db], "remainder-threading", fk, "last-unit-test", fn.where(xb),
-               "the exact division is used exactly for i == len - 1 and div_rem for every earlier unit",
-               "the choice between div_rem and the exact division is not `i == len - 1`")
+    PEEL = peeled_last(fn, dt, xt)
+    if PEEL is not None and not (bool(matched) and res[xb] and res2[db]):
+        # no index test: the last unit is taken off the list up front, the loop serves the others, the exact division comes once,
+        # after the loop (it cannot run before a div_rem: the loop is not reachable from it)
+        after = db not in fn.reachable(xb) and xb in fn.reachable(db)
+        chk.decide(after, "remainder-threading", fk, "last-unit-test", fn.where(xb),
+                   "the exact division is by the unit split_last() took off the list and comes after the loop that div_rems by all earlier ones",
+                   "the exact division by the last unit is not placed after the div_rem loop over the earlier units")
+    else:
+        chk.decide(bool(matched) and res[xb] and res2[db], "remainder-threading", fk, "last-unit-test", fn.where(xb),
+                   "the exact division is used exactly for i == len - 1 and div_rem for every earlier unit",
+                   "the choice between div_rem and the exact division is not `i == len - 1`")
     # zero-valued list unit refused before dividing
     def nonzero(kind, ap, info):
         if kind != "bool":
